@@ -118,6 +118,9 @@ mut('c20_w_retry_branch_sets_flag', 'C20', W,
 var('ok_c20_s_hmf_thread_variable_finally', 'C20', S,
     ("        a, g = self.iterate()\n        fluxdict['acoeff'] = a\n",
      "        _threads = os.environ.get('PYDL_HMF_THREADS')\n        os.environ['PYDL_HMF_THREADS'] = '1'\n        try:\n            a, g = self.iterate()\n        finally:\n            if _threads is None:\n                del os.environ['PYDL_HMF_THREADS']\n            else:\n                os.environ['PYDL_HMF_THREADS'] = _threads\n        fluxdict['acoeff'] = a\n"))
+# restore only reachable through a failure handler whose own clean-up can fail (needs two faults)
+mut('c20_w_restore_in_handler_after_cleanup', 'C20', W, (FIN_W, "    except Exception:\n        log.debug('window_score failed, cleaning up')\n        _ = sorted(os.listdir(os.getcwd()))\n        os.environ['PHOTO_CALIB'] = calib_dir_save\n        raise\n    else:\n        os.environ['PHOTO_CALIB'] = calib_dir_save\n"),
+    ("    del os.environ['PHOTO_CALIB']\n    try:\n", "    del os.environ['PHOTO_CALIB']\n    resolve_dir = '.'\n    try:\n"))
 # ---- C20 no-alarm variants ---------------------------------------------------------------
 var('ok_c20_w_helper_update', 'C20', W, (FIN_W, "    finally:\n        _restore_env('PHOTO_CALIB', calib_dir_save)\n"),
     ("def window_score(rescore=False):", "def _restore_env(name, value):\n    log.debug('restoring %s', name)\n    os.environ.update({name: value})\n\n\ndef window_score(rescore=False):"))
